@@ -84,6 +84,16 @@ KNOWN = [
 
 
 def run(ctx):
+    out = _run(ctx)
+    try:       # the chunk index part of the unit tie reports its own counts (histcheck keeps only evaluations/distinct/samples)
+        import props.c01unit as c01unit
+        out["coverage"]["index_tie"] = dict(c01unit.LAST_INDEX_COVERAGE)
+    except Exception as e:  # coverage only
+        out["coverage"]["index_tie"] = "unavailable: %s" % e
+    return out
+
+
+def _run(ctx):
     return histcheck.run(ctx, cases_for(ctx.rng, ctx.tier), "C01", tags={"data", "create", "tree"}, unit_modules=["c01unit"], known=KNOWN,
                          rule_extra="C01 cases: one fully written dataset per file over all element types, ranks 1-4, extents incl. 1/primes/"
                                     "non-multiples of the chunk extent, chunk shapes, superblock 0/2/3, data with extremes and NaN payloads; plus datasets with 31-100 chunks along one dimension (any position) of rank 1-3; "
